@@ -48,6 +48,7 @@ def run(ctx):
     _borrow(rc, "P7", _c01.sec_distinct)
     # ---- P3 ------------------------------------------------------------------------
     m = rm.build(rc, "rdp.rdp", {"cost": Obj("enum", "Metrics.smape")})
+    rm.threshold_profile(rc, m, "P7", "P7")
     before = len(res.findings)
     _r4(rc, m)
     for f in res.findings[before:]:
